@@ -90,6 +90,17 @@ func vfCheckCacheInvariant(w *vfWorld) {
 		}
 	}
 	zzvf.Assert(rescache.VFEvictionQueueLen(w.s.cache) == zero, "entry-awaits-eviction-iff-unused")
+	// a connection keeps a subscription object (and with it a use of the
+	// cache entry) only while something counts on it: a direct subscription,
+	// a request in flight, or a reference from another held resource
+	for _, cl := range w.clients {
+		for rid, s := range cl.c.subs {
+			if s.direct+s.indirect+s.indirectsent <= 0 {
+				zzvf.Note("connection " + cl.c.cid + " keeps " + rid + " with no direct or indirect count")
+			}
+			zzvf.Assert(s.direct+s.indirect+s.indirectsent > 0, "no-subscription-object-kept-without-a-holder")
+		}
+	}
 }
 
 // vfCheckSubscribeBeforeGet: every get request was sent while an event
@@ -135,7 +146,7 @@ func vfLifecycle(c11 bool) {
 	flushes := zzvf.Param("flushes")
 	discs := zzvf.Param("disconnects")
 	var lagged *vfClient
-	justLagged := false
+	lagBudget := zzvf.ParamOr("lagdisc", 0)
 	var popped []interface{}
 	justPopped := false
 	zzvf.Reach("c09-start")
@@ -160,6 +171,18 @@ func vfLifecycle(c11 bool) {
 			discAct = nact
 			nact++
 		}
+		// lagdisc: the worker of the last connection may become busy at any
+		// moment (what is enqueued then queues up behind the current
+		// callback) and go on at any later moment
+		lagOnAct, lagOffAct := -1, -1
+		if lagBudget > 0 && lagged == nil && !runs[len(runs)-1].disc {
+			lagOnAct = nact
+			nact++
+		}
+		if lagged != nil {
+			lagOffAct = nact
+			nact++
+		}
 		firstAnswer := nact
 		nact += len(pend)
 		if nact == 0 {
@@ -167,6 +190,16 @@ func vfLifecycle(c11 bool) {
 		}
 		a := zzvf.Choose("action", nact)
 		switch {
+		case a == lagOnAct:
+			lagBudget--
+			zzvf.Tag("worker-busy")
+			zzvf.Note("worker of " + runs[len(runs)-1].cl.c.cid + " becomes busy")
+			lagged = runs[len(runs)-1].cl
+			w.lag(lagged, true)
+		case a == lagOffAct:
+			zzvf.Note("worker of " + lagged.c.cid + " goes on")
+			w.lag(lagged, false)
+			lagged = nil
 		case a == issueAct:
 			k := kinds[next]
 			// requests alternate between the connections
@@ -190,7 +223,7 @@ func vfLifecycle(c11 bool) {
 			if _, held := r.cl.c.subs[k.rid]; !held && (k.verb == "subscribe" || k.verb == "get") && k.rid != vfLongName {
 				// (a request on a resource the connection already holds a
 				// subscription object for is served from that object)
-				needFetch = !vfLoadedOrFetching(w, k.rid)
+				needFetch = !vfLoadedOrFetching(w, k.rid) && r.cl != lagged
 			}
 			r.issue(k)
 			if needFetch {
@@ -232,20 +265,12 @@ func vfLifecycle(c11 bool) {
 				zzvf.Note("disconnect " + r.cl.c.cid)
 				r.disc = true
 				if c11 {
-					// all queues are drained here: whatever is requested from
-					// now on with this cid is requested for a closed connection
-					discMark = len(w.mq.reqs)
+					// whatever is requested with this cid from the moment the
+					// dispose runs is requested for a closed connection
+					w.disconnect(r.cl, func() { discMark = len(w.mq.reqs) })
+				} else {
+					w.disconnect(r.cl)
 				}
-				// lagdisc: the connection's worker may be busy, so that the
-				// dispose stays queued while the next external action
-				// happens (callbacks accepted meanwhile queue up behind it)
-				if zzvf.ParamOr("lagdisc", 0) == 1 && zzvf.Choose("worker-busy-at-disconnect", 2) == 1 {
-					zzvf.Tag("dispose-queued-behind-busy-worker")
-					w.lag(r.cl, true)
-					lagged = r.cl
-					justLagged = true
-				}
-				w.disconnect(r.cl)
 			}
 		default:
 			req := pend[a-firstAnswer]
@@ -259,12 +284,6 @@ func vfLifecycle(c11 bool) {
 			runs[0].answer(req, o)
 		}
 		w.settle()
-		if lagged != nil && !justLagged {
-			w.lag(lagged, false)
-			lagged = nil
-			w.settle()
-		}
-		justLagged = false
 		if popped != nil && !justPopped {
 			zzvf.Note("delayed eviction callback runs")
 			for _, v := range popped {
